@@ -320,7 +320,8 @@ func (e *Engine) afterStep() error {
 			return err
 		}
 	}
-	if e.Or.CrashEvery > 0 && (e.step+1)%e.Or.CrashEvery == 0 && !isSched {
+	if e.Or.CrashEvery > 0 && ((e.step+1)%e.Or.CrashEvery == 0 || isSched) {
+		// (also immediately after every commit: the ledger must then hold exactly the new state)
 		if err := e.CrashCheck(); err != nil {
 			return err
 		}
@@ -419,7 +420,7 @@ func (e *Engine) observe() error {
 
 func isMutation(k string) bool {
 	switch k {
-	case "app", "ins", "set", "rem", "pop", "appN", "remN", "mset", "mrem", "mpop", "msetN", "mremN", "styp":
+	case "app", "ins", "set", "rem", "pop", "appN", "remN", "grow", "mgrow", "mset", "mrem", "mpop", "msetN", "mremN", "styp":
 		return true
 	}
 	return false
